@@ -1,6 +1,9 @@
 import AslModel.Thread
 import AslProofs.Thread
 import AslProofs.SemN
+import AslModel.ThreadEnd
+import AslProofs.ThreadEnd
+import Gen.ThreadGen
 /-!
 # C13 — Thread start/join, ThreadGroup and parallel_for run every task exactly once
 
@@ -319,5 +322,62 @@ example : (Cond.init.run [true, true, false, false, false, false, true, true]).w
 open SyncN Sync in
 example : ((run (init 2) [some 0, some 0, some 1, some 1, none, none, none, none, some 1, some 1, some 0, some 0]).w 0,
     (run (init 2) [some 0, some 0, some 1, some 1, none, none, none, none, some 1, some 1, some 0, some 0]).w 1) = (WPc.done, WPc.done) := by decide
+
+/-! ## the start fence and the end of a thread (`AslModel/ThreadEnd.lean`) -/
+
+section StartAndEnd
+
+/-- **G obligations.**  In the current source a barrier stands between the copy of the creator's context and the
+    store `ready = true` in both trampolines; in the code `g++ -O3` emits for them with the hooks off every read of
+    the context precedes a barrier that precedes that store; `Thread::begin` calls `ended()` before it publishes
+    `finished`, through its own reference on the shared state. -/
+theorem handover_fenced_in_source : ∀ p ∈ Gen.Thread.fencedInSource, p.2 = true := by decide
+theorem handover_fenced_at_O3 : ∀ p ∈ Gen.Thread.fencedAtO3, p.2 = true := by decide
+theorem thread_end_order : Gen.Thread.endedFirst = true ∧ Gen.Thread.holdsState = true := by decide
+
+open AslModel.ThreadFence in
+/-- **fenced_handover_never_stale.**  With the barrier, for a context of any number of words and every interleaving of
+    the worker's loads, its store of `ready` and the creator leaving its spin loop (after which it reuses the stack
+    slot): the worker never reads a word of the context after the slot was reused. -/
+theorem fenced_handover_never_stale (words : Nat) (r : List Act) : (run (init words true) r).stale = false :=
+  (AslProofs.ThreadFence.run_inv r _ (AslProofs.ThreadFence.init_inv words)).ns
+
+open AslModel.ThreadFence in
+/-- without it (only `volatile` on the flag, the code before 12ac8c3): one load sunk below the store reads the reused
+    slot.  (Reproduced on the real headers at -O3 by injecting exactly this schedule: harness/c13_handover_o3.cpp.) -/
+theorem unfenced_handover_stale : (run (init 2 false) [Act.load, Act.store, Act.leave, Act.load]).stale = true := by decide
+
+open AslModel.ThreadFence in
+/-- non-vacuity: the fenced worker does complete the hand-over -/
+example : (run (init 2 true) [Act.store, Act.load, Act.load, Act.store, Act.leave]).creatorLeft = true := by decide
+
+open AslModel.ThreadEnd in
+/-- **thread_end_safe.**  With `ended()` first and the flag written through the thread's own reference: in every
+    interleaving of the ending thread with an owner that polls `finished()` and deletes the object as soon as it is
+    true — and also for a self-owned object that deletes itself in `ended()` — neither the deleted object nor the
+    released state is ever used, and the state's reference count is exactly (object alive) + (thread not over). -/
+theorem thread_end_safe (selfOwned : Bool) (r : List Act) :
+    (run (init true true selfOwned) r).bad = false ∧
+    (run (init true true selfOwned) r).stateRefs =
+      (if (run (init true true selfOwned) r).objAlive then 1 else 0) + (if (run (init true true selfOwned) r).wpc < 3 then 1 else 0) := by
+  have h := AslProofs.ThreadEnd.run_inv r _ (AslProofs.ThreadEnd.init_inv selfOwned)
+  exact ⟨AslProofs.ThreadEnd.inv_not_bad _ h, AslProofs.ThreadEnd.inv_refs _ h⟩
+
+open AslModel.ThreadEnd in
+/-- the order before 8766189 (flag, then the virtual call on the object): the owner deletes the object between the two.
+    (Reproduced on the real library under UBSan: known_findings.txt.) -/
+theorem flag_first_unsafe :
+    (run (init false false false) [Act.worker, Act.worker, Act.poll, Act.delete, Act.worker]).bad = true := by decide
+
+open AslModel.ThreadEnd in
+/-- `ended()` first but the flag still written through the object: a self-owned object has deleted itself by then -/
+example : (run (init true false true) [Act.worker, Act.worker, Act.worker]).bad = true := by decide
+
+open AslModel.ThreadEnd in
+/-- non-vacuity: the polling owner does get to delete the object, and the state is then released -/
+example : let c := run (init true true false) [Act.worker, Act.worker, Act.worker, Act.poll, Act.delete]
+    c.owner = 2 ∧ c.stateRefs = 0 ∧ c.bad = false := by decide
+
+end StartAndEnd
 
 end C13
